@@ -1,6 +1,6 @@
 CONSTANTS
   Sessions = {"s1", "s2"}
-  Ghosts = {"null", "unknown", "foreign"}
+  Ghosts = {"null", "unknown", "foreign", "alias"}
   NodeSet = {"n"}
   Values = {1}
   SubIds = {}
@@ -10,6 +10,7 @@ CONSTANTS
   Focus = "session"
   MaxOps = 9
   MaxProbes = 2
+  SetLevels = {}
 INIT GInit
 NEXT GNext
 INVARIANT InvSessionRequired
